@@ -14,7 +14,8 @@ import time
 
 VERIF = os.path.dirname(os.path.dirname(os.path.abspath(__file__)))
 SPEC = os.path.join(VERIF, "spec")
-OUT = os.path.join(VERIF, "out")
+# (KV_OUT_DIR: a scratch directory of its own for a developer run that must not disturb a check running in /verif/out)
+OUT = os.environ.get("KV_OUT_DIR") or os.path.join(VERIF, "out")
 HARNESS = os.environ.get("KV_HARNESS_DIR", os.path.join(VERIF, "harness"))   # (KV_HARNESS_DIR: developer tool bin/seedtest only)
 TARGET = os.environ.get("KV_TARGET_DIR", os.path.join(HARNESS, "target"))
 BIN = os.path.join(TARGET, "debug")
